@@ -72,6 +72,23 @@ NOTES = {
  'C16-s6': 'MISSED (one session per fresh object); caught after the prior axis was added: the judged session opens on an algorithm object that already holds modes from mpe() or an earlier session, and what the algorithm holds afterwards is compared field by field with the same history on a fresh object',
  'C17-s6': 'not run against the earlier version: the interleaving of read-only operations (plot_stab with error bars before the variance table is read, one class-route case in three) was added first, for C01-s6; as shipped the class route read the table straight after run()',
  'C18-s6': 'MISSED (each call on fresh arrays, inputs not compared afterwards); caught after every call compares its arguments before/after (bytes, dtype, shape, strides) and ordered pairs (payload: triples) of indicator calls on the same array objects were added',
+ 'C01-s7': 'MISSED (default ordmin only); caught after the label-only run parameters of the setup route rotate on the case index (ordmin 0, 1, 2m-1, 2m, 2m+1; sc default / none-stable / all-stable; keywords or a run-params object)',
+ 'C03-s7': 'MISSED (no copy / pickle of a multi-setup object); caught after round trips (save+load, pickle, deepcopy, copy) of the PreGER object were added, optionally after one successful preprocessing step, on the identification route and as a third split route: the returned split must be the split of its own datasets',
+ 'C04-s7': 'MISSED (one setup per configuration); caught after a third route carries several FDD_MS/EFDD_MS/pLSCF_MS instances that differ in one setting (overlap, estimator, nxseg) on ONE PreGER object, run by run_all, by name in reversed order and on a fresh object',
+ 'C05-s7': 'MISSED (payload coefficients are never near the identity); caught after coefficient families with the free end coefficient within 1e-9 .. 1.1e-5 of the identity were added on the fit, true-coefficient and class routes (with a ground-truth guard for fit cases the least-squares step cannot resolve)',
+ 'C07-s7': 'MISSED (DF2 of a few bandwidths); caught after the DF2 axis got the part "band wider than the distance to 0 Hz" (DF2 = 1, 1.5, 2, 3 fn and the library default on a mode below 1 Hz)',
+ 'C08-s7': 'MISSED (uncertainty bounds never switched on); caught after two SSIcov(cov_mm, calc_unc=True) variants joined the variant list (unit-component and all relations judged on them)',
+ 'C09-s7': 'MISSED (default ordmin only); caught after ordmin (0, 1, ordmax//2, ordmax) rotates over the cases of both drivers and a reference run with ordmin 0 must give identical pole tables',
+ 'C10-s7': 'MISSED (one algorithm object alive at a time); caught after other live objects (same / other parameter class, four ways of handing the tolerances over, another triple) are created between constructing and running the judged algorithm, and run_params.sc is compared with what was handed over',
+ 'C11-s7': 'MISSED (class routes with the default ordmin); caught after ordmin of the algorithm became an axis of the class routes for int, list and find_min orders',
+ 'C12-s7': 'MISSED (every algorithm constructed with keyword arguments); caught after part 6: one SSIRunParams object reaching two algorithm objects (5 sharing forms x 4 class pairs x 2 routes x 4 requested methods), result.H judged per class and the object compared with a snapshot',
+ 'C13-s7': 'MISSED (every channel had non-zero samples); caught after degenerate records were added (zero channel, zeroed reference row, constant channel, single spike, twin channels) with zero-in-zero-out and identical-rows judgements',
+ 'C14-s7': 'MISSED (no copy / pickle of a setup); caught after the round-trip event was added to the alphabet (deepcopy / pickle / save+load / copy, by rotation; the history continues on the returned object, a later rollback must restore the initial data)',
+ 'C16-s7': 'MISSED (no two designed poles of one order within rtol of each other); caught after a closely spaced pair was added to the designed SSI tables',
+ 'C17-s7': 'MISSED (float64 factors only); caught after the kind and dtype of the factor became an axis of the function route (one-hot / small integers as float64, float32, int64, int32)',
+ 'C18-s7': 'MISSED (no nearly uniform shapes); caught after the family v = m(1 + s u), s = 1e-2 .. 1e-8, collinear and with a small non-collinear part, times every scale of the catalogue was added',
+ 'C19-s7': 'MISSED (unknown labels were invented strings); caught after the corruption family "label borrowed from another table" was added (constraint names, mapping tokens, point numbers as strings, raw reference-channel names) for geo2 and geo1',
+ 'C20-s7': 'MISSED (every figure closed right after judging); caught after "two charts alive at once" was added to the history cases: A is judged again after B was drawn',
  'C20-s2': 'MISSED by the quick tier of the first version of C20 (CMIF with a frequency window only in the thorough tier); caught after the window was added to the quick tier',
 }
 def main():
